@@ -410,3 +410,319 @@ Proof.
     destruct (fuel - node_fuel (Elt nm attrs ch))%nat as [|[|f2]] eqn:Ef; [lia|lia|].
     apply (flush_run pre2 tpre2 (S f2) [47] acc2 _ Hrun2). cbn [p_content]. cbn. now rewrite Heq.
 Qed.
+
+(* ------------------------------------------------------------------ *)
+(* 4. C07: equality modulo blank text between markup                    *)
+
+Fixpoint dropw (s : bytes) : bytes :=
+  match s with
+  | c :: r => if is_ws c then dropw r else s
+  | [] => []
+  end.
+(* trim XML white space at both ends *)
+Definition xstrip (t : bytes) : bytes := dropw (rev (dropw (rev t))).
+Definition emit (t : bytes) : list xitem := match t with [] => [] | _ => [XT t] end.
+Definition is_xe (it : xitem) : bool := match it with XE _ _ _ => true | XT _ => false end.
+Definition strip_items (l : list xitem) : list xitem :=
+  flat_map (fun it => match it with XT t => emit (xstrip t) | e => [e] end) l.
+
+(* the normal form "modulo blank text between markup": in every element that has an element child, each run of
+   character data is trimmed and blank runs are dropped; elements with only character data are left alone *)
+Fixpoint nb (it : xitem) : xitem :=
+  match it with
+  | XT t => XT t
+  | XE n a ch => let ch' := map nb ch in XE n a (if existsb is_xe ch then strip_items ch' else ch')
+  end.
+Definition nb_list (l : list xitem) : list xitem :=
+  let l' := map nb l in if existsb is_xe l then strip_items l' else l'.
+
+Lemma nb_xe n a ch : nb (XE n a ch) = XE n a (nb_list ch).
+Proof. reflexivity. Qed.
+
+Definition allws (w : bytes) : bool := forallb is_ws w.
+
+Lemma dropw_app a b : dropw (a ++ b) = if allws a then dropw b else dropw a ++ b.
+Proof.
+  induction a as [|c a IH]; [reflexivity|]. cbn [app dropw allws forallb]. destruct (is_ws c); [exact IH|reflexivity].
+Qed.
+
+Lemma allws_rev w : allws w = true -> allws (rev w) = true.
+Proof. apply forallb_rev'. Qed.
+
+Lemma dropw_allws w : allws w = true -> dropw w = [].
+Proof. induction w as [|c w IH]; [reflexivity|]. cbn [allws forallb dropw]. intros H. apply andb_true_iff in H as [H1 H2]. rewrite H1. now apply IH. Qed.
+
+Lemma xstrip_trail c w : allws w = true -> xstrip (c ++ w) = xstrip c.
+Proof. intros H. unfold xstrip. rewrite rev_app_distr, dropw_app, (allws_rev _ H). reflexivity. Qed.
+
+Lemma xstrip_lead w c : allws w = true -> xstrip (w ++ c) = xstrip c.
+Proof.
+  intros H. unfold xstrip. rewrite rev_app_distr, dropw_app.
+  destruct (allws (rev c)) eqn:E.
+  - rewrite (dropw_allws _ (allws_rev _ H)). cbn [rev dropw]. now rewrite (dropw_allws _ E).
+  - rewrite rev_app_distr, rev_involutive, dropw_app, H. reflexivity.
+Qed.
+
+(* normal form computed on an UNMERGED item list, with the pending run [cur] *)
+Fixpoint nf (cur : bytes) (l : list xitem) : list xitem :=
+  match l with
+  | [] => emit (xstrip cur)
+  | XT t :: r => nf (cur ++ t) r
+  | (XE _ _ _ as e) :: r => emit (xstrip cur) ++ nb e :: nf [] r
+  end.
+
+Fixpoint mrg (cur : bytes) (l : list xitem) : list xitem :=
+  match l with
+  | [] => emit cur
+  | XT t :: r => mrg (cur ++ t) r
+  | (XE _ _ _ as e) :: r => emit cur ++ e :: mrg [] r
+  end.
+
+Definition acc_of (cur : bytes) (a : list xitem) : list xitem := match cur with [] => a | _ => XT cur :: a end.
+Definition head_not_text (a : list xitem) : Prop := match a with XT _ :: _ => False | _ => True end.
+
+Lemma push_text_acc_of t cur a : head_not_text a -> push_text t (acc_of cur a) = acc_of (cur ++ t) a.
+Proof.
+  intros H. destruct t as [|x t]; [now rewrite app_nil_r|].
+  destruct cur as [|y cur]; cbn [acc_of push_text app].
+  - destruct a as [|[|u] a']; try reflexivity. contradiction.
+  - reflexivity.
+Qed.
+
+Lemma merge_mrg_gen l : forall cur a, head_not_text a ->
+  rev (fold_left push_item l (acc_of cur a)) = rev a ++ mrg cur l.
+Proof.
+  induction l as [|[n at' ch|t] r IH]; intros cur a H.
+  - cbn [fold_left mrg]. destruct cur; cbn [acc_of emit rev]; [now rewrite app_nil_r|reflexivity].
+  - cbn [fold_left push_item mrg]. change (XE n at' ch :: acc_of cur a) with (acc_of [] (XE n at' ch :: acc_of cur a)).
+    rewrite IH by exact I. cbn [rev].
+    assert (E : rev (acc_of cur a) = rev a ++ emit cur)
+      by (destruct cur; cbn [acc_of emit rev]; [now rewrite app_nil_r|reflexivity]).
+    rewrite E, <- !app_assoc. reflexivity.
+  - cbn [fold_left push_item mrg]. rewrite push_text_acc_of by exact H. now apply IH.
+Qed.
+
+Lemma merge_mrg l : merge_items l = mrg [] l.
+Proof. unfold merge_items. change (@nil xitem) with (acc_of [] []) at 1. now rewrite merge_mrg_gen. Qed.
+
+Lemma existsb_xe_emit t : existsb is_xe (emit t) = false.
+Proof. destruct t; reflexivity. Qed.
+
+Lemma existsb_xe_mrg l : forall cur, existsb is_xe (mrg cur l) = existsb is_xe l.
+Proof.
+  induction l as [|[n a ch|t] r IH]; intros cur; cbn [mrg existsb is_xe].
+  - apply existsb_xe_emit.
+  - rewrite existsb_app, existsb_xe_emit. reflexivity.
+  - apply IH.
+Qed.
+
+Lemma strip_mrg l : forall cur, strip_items (map nb (mrg cur l)) = nf cur l.
+Proof.
+  induction l as [|[n a ch|t] r IH]; intros cur; cbn [mrg nf].
+  - destruct cur; [reflexivity|]. cbn [emit map nb strip_items flat_map]. now rewrite app_nil_r.
+  - rewrite map_app. unfold strip_items. rewrite flat_map_app. fold (strip_items (map nb (XE n a ch :: mrg [] r))).
+    cbn [map strip_items flat_map app]. fold (strip_items (map nb (mrg [] r))). rewrite IH. f_equal.
+    destruct cur; [reflexivity|]. cbn [emit map nb flat_map]. now rewrite app_nil_r.
+  - apply IH.
+Qed.
+
+Lemma nb_merge l : existsb is_xe l = true -> nb_list (merge_items l) = nf [] l.
+Proof. intros H. unfold nb_list. rewrite merge_mrg, existsb_xe_mrg, H. apply strip_mrg. Qed.
+
+Lemma nf_lead u c l : allws u = true -> nf (u ++ c) l = nf c l.
+Proof.
+  intros H. revert c. induction l as [|[n a ch|t] r IH]; intros c; cbn [nf].
+  - now rewrite xstrip_lead.
+  - now rewrite xstrip_lead.
+  - rewrite <- app_assoc. apply IH.
+Qed.
+
+(* two item lists that differ only by white-space text around elements (and by children that are equal modulo
+   blank text) *)
+Inductive wsrel : list xitem -> list xitem -> Prop :=
+| wr_nil : wsrel [] []
+| wr_text t r1 r2 : wsrel r1 r2 -> wsrel (XT t :: r1) (XT t :: r2)
+| wr_elt u1 v1 u2 v2 n a c1 c2 r1 r2 :
+    allws u1 = true -> allws v1 = true -> allws u2 = true -> allws v2 = true ->
+    nb (XE n a c1) = nb (XE n a c2) -> wsrel r1 r2 ->
+    wsrel (XT u1 :: XE n a c1 :: XT v1 :: r1) (XT u2 :: XE n a c2 :: XT v2 :: r2).
+
+Lemma wsrel_app a b c d : wsrel a b -> wsrel c d -> wsrel (a ++ c) (b ++ d).
+Proof. induction 1; intros H'; cbn [app]; [exact H'|constructor; auto|constructor; auto]. Qed.
+
+Lemma wsrel_nf l1 l2 : wsrel l1 l2 -> forall v1 v2 c, allws v1 = true -> allws v2 = true ->
+  nf c (l1 ++ [XT v1]) = nf c (l2 ++ [XT v2]).
+Proof.
+  induction 1 as [|t r1 r2 H IH|u1 w1 u2 w2 n a c1 c2 r1 r2 A1 A2 A3 A4 E H IH]; intros v1 v2 c V1 V2.
+  - cbn [app nf]. now rewrite !xstrip_trail.
+  - cbn [app nf]. now apply IH.
+  - cbn [app nf]. rewrite !xstrip_trail by assumption. rewrite E.
+    rewrite <- (app_nil_r w1), <- (app_nil_r w2). rewrite !nf_lead by assumption. now rewrite (IH v1 v2 [] V1 V2).
+Qed.
+
+Lemma wsrel_no_xe l1 l2 : wsrel l1 l2 -> existsb is_xe l2 = false -> l1 = l2.
+Proof.
+  induction 1; intros E; [reflexivity| |cbn in E; discriminate].
+  cbn [existsb is_xe orb] in E. f_equal. auto.
+Qed.
+
+Lemma sp_allws w : forallb is_sp_nl w = true -> allws w = true.
+Proof.
+  unfold allws. induction w as [|c w IH]; [reflexivity|]. cbn [forallb]. intros H. apply andb_true_iff in H as [H1 H2].
+  rewrite (IH H2), andb_true_r. unfold is_sp_nl in H1. unfold is_ws.
+  apply orb_true_iff in H1 as [H|H]; apply N.eqb_eq in H; subst; reflexivity.
+Qed.
+
+Definition st_rel (s1 s2 : est) : Prop := e_cur_tag s1 = e_cur_tag s2 /\ e_in_cdata s1 = e_in_cdata s2.
+
+Definition rel_res (r1 r2 : option (list xitem * est)) : Prop :=
+  match r1, r2 with
+  | Some (i1, s1), Some (i2, s2) => wsrel i1 i2 /\ st_rel s1 s2
+  | None, None => True
+  | _, _ => False
+  end.
+
+Lemma node_xe l o p s n its s' :
+  info_g l o p s n = Some (its, s') -> existsb is_xe its = match n with Elt _ _ _ => true | _ => false end.
+Proof.
+  destruct n; try discriminate.
+  - intros H. destruct (info_g_elt_shape _ _ _ _ _ _ _ _ _ H) as (c & ->). reflexivity.
+  - cbn [info_g]. unfold text_item. destruct (text_policy o p s s0); [|intros E; now injection E as <- _].
+    destruct (tag_is_binary _); [destruct (b64_enc _); [|discriminate]|]; intros E; now injection E as <- _.
+Qed.
+
+Lemma list_xe l o p ch : forall s its s',
+  info_list_g (info_g l o p) ch s = Some (its, s') -> existsb is_xe its = have_child_elt ch.
+Proof.
+  induction ch as [|n r IH]; intros s its s' H.
+  - cbn in H. now injection H as <- _.
+  - cbn [info_list_g] in H. destruct (info_g l o p s n) as [[a s1]|] eqn:E1; [|discriminate].
+    fold (info_list_g (info_g l o p)) in H.
+    destruct (info_list_g (info_g l o p) r (reset_cur s1)) as [[b s2]|] eqn:E2; [|discriminate].
+    injection H as <- _. rewrite existsb_app, (node_xe _ _ _ _ _ _ _ E1), (IH _ _ _ E2).
+    unfold have_child_elt. cbn [existsb]. reflexivity.
+Qed.
+
+Section IndentVsCompact.
+  Variables (d d' : N) (ig rb : bool).
+  Let oi : opts := mk_opts Indent d ig rb.
+  Let oc : opts := mk_opts Compact d' ig rb.
+
+  Lemma spec_attrs_ic l parent nm attrs : spec_attrs l oi parent nm attrs = spec_attrs l oc parent nm attrs.
+  Proof. reflexivity. Qed.
+
+  Lemma text_item_rel l parent s1 s2 c : st_rel s1 s2 -> rel_res (text_item l oi parent s1 c) (text_item l oc parent s2 c).
+  Proof.
+    intros [Hc Hd]. unfold text_item.
+    assert (EP : text_policy oi parent s1 c = text_policy oc parent s2 c).
+    { unfold text_policy. rewrite Hd, (text_tag_ext s1 s2 parent Hc). reflexivity. }
+    rewrite EP, Hc, (text_tag_ext s1 s2 parent Hc).
+    destruct (text_policy oc parent s2 c) as [c'|]; [|cbn; split; [constructor|split; assumption]].
+    destruct (tag_is_binary (text_tag s2 parent)); [destruct (b64_enc _); [|exact I]|];
+      (cbn; split; [repeat constructor|split; [reflexivity|exact Hd]]).
+  Qed.
+
+  Definition rel_node_stmt (n : node) : Prop :=
+    forall l parent s1 s2, st_rel s1 s2 -> rel_res (info_g l oi parent s1 n) (info_g l oc parent s2 n).
+
+  Lemma rel_list ch : Forall rel_node_stmt ch ->
+    forall l parent s1 s2, st_rel s1 s2 ->
+      rel_res (info_list_g (info_g l oi parent) ch s1) (info_list_g (info_g l oc parent) ch s2).
+  Proof.
+    induction 1 as [|n r Hn Hr IH]; intros l parent s1 s2 Hs.
+    - cbn. split; [constructor|exact Hs].
+    - cbn [info_list_g]. specialize (Hn l parent s1 s2 Hs). unfold rel_res in Hn.
+      destruct (info_g l oi parent s1 n) as [[a1 t1]|], (info_g l oc parent s2 n) as [[a2 t2]|]; try contradiction; [|exact I].
+      destruct Hn as [Hw [Hc Hd]].
+      fold (info_list_g (info_g l oi parent)). fold (info_list_g (info_g l oc parent)).
+      assert (Hs' : st_rel (reset_cur t1) (reset_cur t2)) by (split; [reflexivity|exact Hd]).
+      specialize (IH l parent _ _ Hs'). unfold rel_res in IH.
+      destruct (info_list_g (info_g l oi parent) r (reset_cur t1)) as [[b1 u1]|],
+               (info_list_g (info_g l oc parent) r (reset_cur t2)) as [[b2 u2]|]; try contradiction; [|exact I].
+      destruct IH as [Hw2 Hs2]. cbn. split; [now apply wsrel_app|exact Hs2].
+  Qed.
+
+  Lemma rel_node : forall n, rel_node_stmt n.
+  Proof.
+    induction n as [nm attrs ch IHch|t|ch _| |sl roots _] using node_ind2; intros l parent s1 s2 Hs; try exact I.
+    - cbn [info_g]. destruct ch as [|c0 ch0].
+      + unfold rel_res. split.
+        * apply wr_elt; try (apply sp_allws; first [apply w0_sp|apply nl_if_sp]); [reflexivity|constructor].
+        * destruct Hs as [_ Hd]. split; [reflexivity|exact Hd].
+      + assert (Hin : st_rel (s_in oi (c0 :: ch0) nm s1) (s_in oc (c0 :: ch0) nm s2)).
+        { destruct Hs as [_ Hd]. unfold s_in. destruct (hc oi (c0 :: ch0)), (hc oc (c0 :: ch0)); (split; [reflexivity|exact Hd]). }
+        pose proof (rel_list (c0 :: ch0) IHch l (pinfo_below parent nm) _ _ Hin) as HL. unfold rel_res in HL.
+        destruct (info_list_g (info_g l oi (pinfo_below parent nm)) (c0 :: ch0) (s_in oi (c0 :: ch0) nm s1)) as [[i1 t1]|] eqn:E1,
+                 (info_list_g (info_g l oc (pinfo_below parent nm)) (c0 :: ch0) (s_in oc (c0 :: ch0) nm s2)) as [[i2 t2]|] eqn:E2;
+          try contradiction; [|exact I].
+        destruct HL as [Hw [Hc Hd]]. unfold rel_res. split.
+        * apply wr_elt; try (apply sp_allws; first [apply w0_sp|apply nl_if_sp]); [|constructor].
+          rewrite !nb_xe. f_equal.
+          pose proof (list_xe _ _ _ _ _ _ _ E1) as X1. pose proof (list_xe _ _ _ _ _ _ _ E2) as X2.
+          destruct (have_child_elt (c0 :: ch0)) eqn:HC.
+          -- rewrite !nb_merge by (cbn [existsb is_xe orb]; rewrite existsb_app; first [rewrite X1|rewrite X2]; reflexivity).
+             cbn [nf]. cbn [app].
+             rewrite <- (app_nil_r (w1 oi (c0 :: ch0))), <- (app_nil_r (w1 oc (c0 :: ch0))).
+             rewrite !nf_lead by (apply sp_allws, w1_sp).
+             apply wsrel_nf; [exact Hw| |]; apply sp_allws, w2_sp.
+          -- assert (i1 = i2) by (apply wsrel_no_xe; [exact Hw|now rewrite X2]). subst i2.
+             unfold w1, w2, hc. rewrite HC, !andb_false_r. reflexivity.
+        * unfold s_out. split; [exact Hc|exact Hd].
+    - cbn [info_g]. now apply text_item_rel.
+  Qed.
+End IndentVsCompact.
+
+(* the hypotheses do not depend on the generation mode beyond "canonical or not" *)
+Lemma chars_ok_opts o1 o2 s : is_canonical o1 = is_canonical o2 -> chars_ok o1 s = chars_ok o2 s.
+Proof. intros H. unfold chars_ok. now rewrite H. Qed.
+
+Lemma spec_attrs_opts l o1 o2 parent nm attrs : is_canonical o1 = is_canonical o2 ->
+  spec_attrs l o1 parent nm attrs = spec_attrs l o2 parent nm attrs.
+Proof.
+  intros H. unfold spec_attrs. f_equal. destruct (xl_has_attrs l); [|reflexivity].
+  apply map_ext. intros a. unfold spec_attr_value. now rewrite H.
+Qed.
+
+Lemma node_ok_opts : forall n l o1 o2 parent cur, is_canonical o1 = is_canonical o2 ->
+  node_ok l o1 parent cur n = node_ok l o2 parent cur n.
+Proof.
+  induction n as [nm attrs ch IHch|t|ch _| |sl roots _] using node_ind2; intros l o1 o2 parent cur H; try reflexivity.
+  - cbn [node_ok]. rewrite (spec_attrs_opts l o1 o2 parent nm attrs H).
+    assert (A : forallb (attr_ok o1) attrs = forallb (attr_ok o2) attrs).
+    { induction attrs as [|a r IHa]; [reflexivity|]. cbn [forallb]. rewrite IHa. f_equal. unfold attr_ok. now rewrite (chars_ok_opts o1 o2 _ H). }
+    rewrite A. f_equal.
+    generalize (cur_of nm). induction IHch as [|x r Hx Hr IH]; intros c; [reflexivity|].
+    rewrite (Hx l o1 o2 (pinfo_below parent nm) c H). f_equal. apply IH.
+  - cbn [node_ok]. now rewrite (chars_ok_opts o1 o2 t H).
+Qed.
+
+Lemma wsrel_root_inv u1 n1 a1 c1 v1 u2 n2 a2 c2 v2 :
+  wsrel [XT u1; XE n1 a1 c1; XT v1] [XT u2; XE n2 a2 c2; XT v2] -> nb (XE n1 a1 c1) = nb (XE n2 a2 c2).
+Proof.
+  intros H. inversion H as [|t r1 r2 H'|]; subst; [inversion H'|assumption].
+Qed.
+
+(* C07, XML half: indented generation (ANY indent width 0..255 — the width is an arbitrary N reduced mod 256 —
+   and any nesting depth: the encoder's 8-bit depth counter is threaded mod 256 in info_g) and compact generation
+   of one tree are both accepted by the reader, carry the same DOCTYPE, and denote the same element tree modulo
+   blank text between markup (nb). *)
+Theorem c07_xml_indent_compact l indent indent' keep_ws nm attrs ch out_i out_c :
+  lang_ok l = true ->
+  node_ok l (opts_of_params Compact indent' keep_ws) proot None (Elt nm attrs ch) = true ->
+  enc_xml l Indent indent keep_ws [Elt nm attrs ch] = XOk out_i ->
+  enc_xml l Compact indent' keep_ws [Elt nm attrs ch] = XOk out_c ->
+  forall fuel, (node_fuel (Elt nm attrs ch) + 2 <= fuel)%nat ->
+    exists ri rc,
+      read_xml fuel out_i = ROk (doc_of l [ri]) /\ read_xml fuel out_c = ROk (doc_of l [rc]) /\ nb ri = nb rc.
+Proof.
+  intros HL Hokc Ei Ec fuel Hf.
+  assert (Hoki : node_ok l (opts_of_params Indent indent keep_ws) proot None (Elt nm attrs ch) = true)
+    by (rewrite (node_ok_opts _ l _ (opts_of_params Compact indent' keep_ws)); [exact Hokc|reflexivity]).
+  destruct (read_enc_g l _ nm attrs ch out_i HL Hoki Ei) as (ci & si & Ii & Ri).
+  destruct (read_enc_g l _ nm attrs ch out_c HL Hokc Ec) as (cc & sc & Ic & Rc).
+  eexists _, _. split; [apply Ri; exact Hf|]. split; [apply Rc; exact Hf|].
+  pose proof (rel_node (u8 indent) 1 (negb keep_ws) (negb keep_ws) (Elt nm attrs ch) l proot (est0 0) (est0 0)
+                       (conj eq_refl eq_refl)) as HR.
+  unfold opts_of_params in Ii, Ic. rewrite Ii, Ic in HR. destruct HR as [HW _].
+  exact (wsrel_root_inv _ _ _ _ _ _ _ _ _ _ HW).
+Qed.
